@@ -119,20 +119,21 @@ def zone_deescape(ctx, rid, dp):
             for x in walk(l['e']):
                 if x.get('k') == 'var' and x.get('tk') == 'ptr':
                     wr_ptrs.add(x['n'])
-    if len(wr_ptrs) != 1:
-        raise AnalysisBroken('DepfileParser::Parse: expected exactly one pointer that is written through, found %s' % sorted(wr_ptrs))
-    out = list(wr_ptrs)[0]
-    # `out` is initialised from the read cursor at the start of every file name
-    inits = [e for e in dp.events('decl') if e['n'] == out and e.get('init') is not None]
+    if not wr_ptrs:
+        raise AnalysisBroken('DepfileParser::Parse: no pointer is written through')
+    # the write cursor(s): `out`, and copies of it made by helpers that were inlined; the read cursor is the variable the
+    # write cursor is initialised from at the start of every file name
     cur = None
-    for e in inits:
-        i = strip(e['init'])
-        if isinstance(i, dict) and i.get('k') == 'var':
-            cur = i['n']
+    for e in dp.events('decl'):
+        if e['n'] in wr_ptrs and e.get('init') is not None:
+            i = strip(e['init'])
+            if isinstance(i, dict) and i.get('k') == 'var' and i['n'] not in wr_ptrs:
+                cur = i['n'] if cur in (None, i['n']) else cur
     if cur is None:
         raise AnalysisBroken('DepfileParser::Parse: the write cursor is not initialised from the read cursor')
-    an = Analysis(dp)
-    if cur not in an.names or out not in an.names:
+    out = sorted(wr_ptrs)[0]
+    an = Analysis(dp, extra_vars=['__t'])
+    if cur not in an.names or not all(w in an.names for w in wr_ptrs):
         raise AnalysisBroken('DepfileParser::Parse: cursors not tracked')
     z = Zone(an.names)
     an.run(z)
@@ -142,14 +143,14 @@ def zone_deescape(ctx, rid, dp):
         f = _plus(addr, ({cur: -1}, 0), k)          # addr + k - in <= 0
         ok = zs.entails(f, 0)
         ctx.check(rid, ok, dp.name, construct, dp.where(e), what,
-                  msg=None if ok else '%s is not entailed by the zone fixpoint (state: %s)' % (what, zs.describe({out, cur, 'start', 'len', 'n', ZERO, 'filename'})[:300]))
+                  msg=None if ok else '%s is not entailed by the zone fixpoint (state: %s)' % (what, zs.describe(set(wr_ptrs) | {cur, 'start', 'len', 'n', ZERO, 'filename'})[:300]))
 
     def on_event(bid, e, zs):
         if e['k'] == 'asg':
             l = strip(e['l'])
             if isinstance(l, dict) and l.get('k') == 'un' and l.get('op') == '*':
                 a = an.lin(l['e'], zs)
-                if a is None or not any(v == out for v in a[0]):
+                if a is None or not any(v in wr_ptrs for v in a[0]):
                     return
                 n['writes'] += 1
                 below_cursor(zs, a, 1, e, 'the byte written through `%s` lies below the read cursor `%s`' % (dstr(l['e'])[:20], cur),
@@ -157,7 +158,7 @@ def zone_deescape(ctx, rid, dp):
         elif e['k'] == 'call' and (e.get('name') or '') in ('memset', 'memmove', 'memcpy'):
             args = e.get('args') or []
             a = an.lin(args[0], zs)
-            ln = an.lin(args[2], zs)
+            ln = an.lin_or_temp(args[2], zs)
             if a is None or ln is None:
                 ctx.check(rid, False, dp.name, 'deescape:%s:not-linear' % e['name'], dp.where(e),
                           'destination and length of %s are linear in the tracked cursors' % e['name'])
@@ -174,7 +175,7 @@ def zone_deescape(ctx, rid, dp):
                     below_cursor(zs, _plus(s, ln), 0, e, '%s reads `%s` + `%s` at or below the read cursor' % (
                         e['name'], dstr(args[1])[:20], dstr(args[2])[:20]), 'deescape:%s-reads-ahead' % e['name'])
     an.visit(on_event)
-    ctx.table('C15.Z1 zone analysis', {'function': dp.id, 'write cursor': out, 'read cursor': cur,
+    ctx.table('C15.Z1 zone analysis', {'function': dp.id, 'write cursors': sorted(wr_ptrs), 'read cursor': cur,
                                        'loop heads (widening points)': len(an.heads), 'blocks reached': len([b for b in an.inn if not an.inn[b].bot]),
                                        'byte writes checked': n['writes'], 'block fills / moves checked': n['moves']})
     return n
@@ -211,7 +212,7 @@ def run(ctx):
             ctx.check('C15.X1', bool(e.get('from_decl')) and const_value(e.get('r')) == 0, dp.name, 'no-colon:flag-other-store', dp.where(e),
                       'the colon flag starts false and is otherwise only raised')
     for e in ins_push + outs_push:
-        r = dp.find_path(None, lambda x: x is e, from_succ=dp.entry, is_blocker=_among(ne_false))
+        r = dp.find_path(None, lambda x: x is e, from_succ=dp.entry, is_blocker=_among(ne_false), sensitive=False)
         ctx.check('C15.X1', r is None, dp.name, 'no-colon:name-collected-but-empty', dp.where(e),
                   'a name is collected only after "the file is not empty" was noted', witness=None if r is None else {'blocks': r[0]})
     # product of the CFG with the two flags: no successful return is reachable with "a name was noted" and "no colon seen"
